@@ -84,10 +84,10 @@ CHECKS = {
         design_ref='6/C16',
         note='one open known finding (F12: peak-centred tables without sample columns); exhaustive part: 4-5 cycles over a 2-level domain.'),
     'C20': dict(
-        technique=TECH + 'TLC trace validation (Trace_Plots) of recorded plotting calls under the Agg backend against the bounds of Plots.tla, on analysis tables of generated signals and exhaustively on every small table x window',
-        text='Plots.tla states bounds in sample units (drawn markers are genuine cyclepoints of their kind at the plotted signal\'s value and every required cyclepoint strictly inside the view is drawn by the cyclepoint plots; highlighted samples lie in burst cycles and cover every completely displayed burst cycle; panel vertices are genuine (centre | side, value) pairs, every cycle completely in view is shown, threshold line at the threshold). The harness maps artist data of plot_cyclepoints_df/_array, plot_burst_detect_param, plot_burst_detect_summary and Bycycle.plot back to samples; TLC judges every call over windows on the sample grid, flags and both centrings, and every side-extremum set x window on 7 (thorough 9) samples.',
+        technique=TECH + 'exhaustive small-scope enumeration by TLC (MC_Plots: every small table x window x plot mode, the drawing of the real function looked up per point) and TLC trace validation (Trace_Plots) of recorded plotting calls under the Agg backend, both against the bounds of Plots.tla',
+        text='Plots.tla states bounds in sample units (drawn markers are genuine cyclepoints of their kind at the plotted signal\'s value and every required cyclepoint strictly inside the view is drawn by the cyclepoint plots; highlighted samples lie in burst cycles and cover every completely displayed burst cycle; panel vertices are genuine (centre | side, value) pairs, every cycle completely in view is shown, threshold line at the threshold). The harness maps artist data of plot_cyclepoints_df/_array, plot_burst_detect_param, plot_burst_detect_summary and Bycycle.plot back to samples; TLC enumerates every side-extremum set x centring x window x plot mode on 7 (thorough 9) samples and judges the recorded drawing of each point, and judges every recorded call on analysis tables of generated signals over windows on the sample grid, flags and both centrings; markers and the highlighted trace must lie on the signal line as actually drawn.',
         design_ref='6/C20',
-        note='artist data, not pixels; one open known finding (F15: x-limits whose product with fs is inexact, fs not a power of two); the input space of the small-scope part is enumerated by the harness (TLC judges each case), so the level is translation-validation-like trace checking rather than exhaustive model checking.'),
+        note='artist data, not pixels; one open known finding (F15: x-limits whose product with fs is inexact, fs not a power of two); small scope: tables to 7 (9) samples with synthetic parameter columns.'),
     'C19': dict(
         technique=TECH + 'exhaustive enumeration by TLC (MC_Kwargs) of the documented decision tables (array shape x axis x option-list shape; every parameter at / inside / outside its range at every entry point) with the outcome of the real entry point looked up for every point',
         text='KwargsShape.tla is the documented accept/reject table; TLC enumerates the complete grid (extents 1..3, 7 axis values, None/dict/1-D/2-D/3-D lists; ~250 parameter points over 25 entry points, ASSUMEs force the harness to probe every position of every parameter) and requires "returns" where the table accepts and exactly ValueError where it rejects, for check_kwargs_shape, compute_features_2d/3d, BycycleGroup.fit and the single-signal entry points.',
